@@ -947,6 +947,14 @@ impl<'tcx> Cx<'tcx> {
         if let Some(j) = self.glue_memo.get(&memo_key) {
             return j.clone();
         }
+        let mut own: Option<usize> = None;
+        if let ty::Adt(adt, aargs) = t.kind() {
+            if let Some(dtor) = adt.destructor(self.tcx) {
+                if self.has_body(dtor.did) {
+                    own = Some(self.intern_inst(dtor.did, aargs, root));
+                }
+            }
+        }
         let mut drops: Vec<usize> = Vec::new();
         let mut ext: Vec<String> = Vec::new();
         let mut opaque: Vec<String> = Vec::new();
@@ -961,7 +969,8 @@ impl<'tcx> Cx<'tcx> {
         let j = J::obj()
             .set("drops", J::Arr(drops.into_iter().map(|i| J::Int(i as i128)).collect()))
             .set("ext", J::Arr(ext.into_iter().map(J::s).collect()))
-            .set("opaque", J::Arr(opaque.into_iter().map(J::s).collect()));
+            .set("opaque", J::Arr(opaque.into_iter().map(J::s).collect()))
+            .set("own", match own { Some(i) => J::Int(i as i128), None => J::Null });
         self.glue_memo.insert(memo_key, j.clone());
         j
     }
